@@ -6,6 +6,7 @@ import (
 	"fmt"
 	"io"
 	"log/slog"
+	"math"
 	"net"
 	"strings"
 
@@ -499,9 +500,14 @@ func (srv *Session) readParameters(ctx context.Context, reader *buffer.Reader) (
 			return nil, err
 		}
 
-		value, err := reader.GetBytes(int(length))
-		if err != nil {
-			return nil, err
+		// NOTE: as a special case, -1 indicates a NULL parameter value. No value
+		// bytes follow in the NULL case.
+		var value []byte
+		if length != math.MaxUint32 {
+			value, err = reader.GetBytes(int(length))
+			if err != nil {
+				return nil, err
+			}
 		}
 
 		srv.logger.Debug("incoming parameter", slog.String("value", string(value)))
